@@ -391,6 +391,35 @@ class C01(C.Check):
                 return "mode %d: action on a complex vector differs from the matrix expression" % m
         return None
 
+    def templates(self, ctx):
+        """Structured multi-step builds that random trees hit too rarely: a diagonal (plain,
+        adjoint, inverse, with/without sampling dtype) enters a sum or a chain at every position and
+        with every sign BEFORE a second diagonal / scaling is combined with the result, so that
+        the absorption and merging rules of simplify() run on already simplified operands."""
+        def D(vals, flag=0, wrap=None):
+            e = ["prim", ["diag", "P", [cplx(v) for v in vals], flag, None]]
+            return [wrap, e] if wrap else e
+        def S(c, flag=0):
+            return ["prim", ["scal", "P", cplx(c), flag]]
+        A = ["prim", ["leaf", 0]]
+        d1, d2 = [1, -2, 4, 0.5], [2, 3, -1, 1 + 1j]
+        out = []
+        diag_variants = [lambda v: D(v), lambda v: D(v, 0, "inv"), lambda v: D(v, 0, "adj"), lambda v: D(v, 1)]
+        xs = [A, S(2), S(1j), S(-0.25, 1)]
+        for i, dv1 in enumerate(diag_variants):
+            for j, dv2 in enumerate(diag_variants[:3] if ctx.quick else diag_variants):
+                for x in (xs[:2] if ctx.quick else xs):
+                    for o1 in ("add", "sub"):
+                        for o2 in ("add", "sub"):
+                            out.append(("rg", [o2, [o1, x, dv1(d1)], dv2(d2)]))       # (X ± D1) ± D2
+                            out.append(("rg", [o2, [o1, dv1(d1), x], dv2(d2)]))       # (D1 ± X) ± D2
+                            out.append(("rg", [o2, x, [o1, dv1(d1), dv2(d2)]]))       # X ± (D1 ± D2)
+                out.append(("rg", ["scale", cplx(3 if i % 2 else -0.5), ["comp", dv1(d1), dv2(d2)]]))
+                out.append(("rg", ["comp", ["scale", cplx(2), A], ["comp", dv1(d1), ["scale", cplx(4), dv2(d2)]]]))
+                out.append(("rg", ["inv", ["comp", dv1(d1), ["scale", cplx(-2), dv2(d2)]]]))
+                out.append(("rg", ["adj", ["sub", ["comp", A, dv1(d1)], ["scale", cplx(1j), dv2(d2)]]]))
+        return out
+
     def gen(self, ctx):
         rng = ctx.rng(1)
         n = 140 if ctx.quick else 1500
@@ -408,7 +437,9 @@ class C01(C.Check):
         self.cases = []
         todo = []
         for c in ctx.corpus():
-            todo.append((c["cfg"], c["expr"]))
+            if "expr" in c:
+                todo.append((c["cfg"], c["expr"]))
+        todo += self.templates(ctx)
         for cfg, depth, s, sand in self.gen(ctx):
             w = worlds[cfg][0]
             rng = np.random.default_rng(s)
@@ -459,7 +490,76 @@ class C01(C.Check):
         })
         return [self.cases[idx[b]] for b in bad]
 
+    def blockdiag_oracle(self, ctx, res):
+        """BlockDiagonalOperator (multi-domain; not in the Coq model): chains, sums and differences of
+        two block-diagonal operators with missing keys (= identity), in all advertised modes, against
+        NumPy block matrices."""
+        import nifty.cl as ift
+        rng = ctx.rng(31)
+        d = ift.MultiDomain.make({"a": ift.RGSpace(2), "b": ift.RGSpace(3)})
+        keys = list(d.keys())
+        sizes = {k: d[k].size for k in keys}
+
+        def entry(k, kind):
+            n = sizes[k]
+            if kind == 0:
+                return None, np.eye(n)
+            if kind == 1:
+                c = float(rng.integers(1, 4)) * (-1) ** int(rng.integers(2))
+                return ift.ScalingOperator(d[k], c), c * np.eye(n)
+            v = rng.integers(1, 5, size=n).astype(float) * (-1) ** rng.integers(0, 2, size=n)
+            return ift.DiagonalOperator(ift.Field.from_raw(d[k], v)), np.diag(v)
+
+        def dense(op, mode):
+            cols = []
+            tot = sum(sizes.values())
+            for j in range(tot):
+                e = np.zeros(tot)
+                e[j] = 1
+                x = ift.MultiField.from_dict({"a": ift.Field.from_raw(d["a"], e[:2]), "b": ift.Field.from_raw(d["b"], e[2:])})
+                y = op.apply(x, mode).asnumpy()
+                cols.append(np.concatenate([y["a"], y["b"]]))
+            return np.array(cols).T
+
+        n = 0
+        kinds_list = [c["kinds"] for c in ctx.corpus() if c.get("cfg") == "blockdiag"]
+        kinds_list += [[[int(rng.integers(3)) for _ in keys] for _ in range(2)] for _ in range(36)]
+        for kinds in kinds_list:
+            ops, mats = [], []
+            for kk in kinds:
+                dct, blocks = {}, []
+                for k, kind in zip(keys, kk):
+                    o, m = entry(k, kind)
+                    if o is not None:
+                        dct[k] = o
+                    blocks.append(m)
+                ops.append(ift.BlockDiagonalOperator(d, dct))
+                M = np.zeros((5, 5))
+                M[:2, :2] = blocks[0]
+                M[2:, 2:] = blocks[1]
+                mats.append(M)
+            for name, f, R in [("chain", lambda: ops[0] @ ops[1], mats[0] @ mats[1]),
+                               ("sum", lambda: ops[0] + ops[1], mats[0] + mats[1]),
+                               ("diff", lambda: ops[0] - ops[1], mats[0] - mats[1])]:
+                n += 1
+                inp = {"cfg": "blockdiag", "kinds": kinds, "combine": name, "seed": ctx.seed}
+                try:
+                    op = f()
+                    got = dense(op, 1)
+                    gotadj = dense(op, 2)
+                except Exception as ex:
+                    res.add_failing({"what": "block-diagonal combination raises"},
+                                    "BlockDiagonalOperator %s with kinds %s raised %s: %s" % (name, kinds, type(ex).__name__, str(ex)[:100]), inp)
+                    return n
+                if np.abs(got - R).max() > 1e-12 or np.abs(gotadj - R.T).max() > 1e-12:
+                    res.add_failing({"what": "block-diagonal combination wrong"},
+                                    "BlockDiagonalOperator %s with kinds %s differs from the block matrix expression" % (name, kinds), inp)
+                    return n
+        return n
+
     def oracle(self, ctx, res, hints, budget):
+        nb = self.blockdiag_oracle(ctx, res)
+        res.coverage["blockdiag_oracle_evaluations"] = nb
         n = 0
         for o in self.cases:
             w, leafcaps, leafmats, _ = self.worlds[o["cfg"]]
@@ -489,6 +589,10 @@ class C01(C.Check):
     def replay(self, ctx, rp):
         c01_tables_cache["capTable"] = [[int(x) for x in row] for row in __import__("nifty.cl", fromlist=["x"]).LinearOperator._capTable]
         i = rp["input"]
+        if i["cfg"] == "blockdiag":
+            r = C.Result(self.prop, ctx.tier, int(i.get("seed", 0)))
+            self.blockdiag_oracle(C.Ctx(self.prop, ctx.tier, int(i.get("seed", 0))), r)
+            return bool(r.failing)
         w, leafcaps, leafmats, _ = self.world(i["cfg"])
         o = self.run_impl(w, i["expr"], leafcaps, leafmats)
         return self.direct(w, o, leafcaps, leafmats) is not None
